@@ -171,6 +171,8 @@ class AlignSpace(Subspace):
                     if arg not in ("codes",):
                         for kind in INDEX_PERTURB:
                             cells.append((name, arg, n, "series", "index", kind))
+                            # only the keys and this argument are pandas objects, the rest NumPy
+                            cells.append((name, arg, n, "pair", "index", kind))
         self._cells = cells
 
     def size(self):
@@ -195,7 +197,11 @@ class AlignSpace(Subspace):
         def build():
             a = {k: None for k in ("keys", "codes", "values", "values2", "mask", "mask2", "times")}
             for k in args:
-                a[k] = _mk(n, k, cont)
+                if cont == "pair":
+                    first = args[0]
+                    a[k] = _mk(n, k, "series" if k in (first, case["arg"]) else "ndarray")
+                else:
+                    a[k] = _mk(n, k, cont)
             return a
 
         def attempt(a):
